@@ -11,6 +11,7 @@
  */
 #include <eav.h>
 #include <eav/private.h>
+#include <eav/verif_hooks.h>
 
 
 extern int
@@ -53,7 +54,10 @@ is_ascii_domain (const char *start, const char *end)
     /*
      * Find bad characters or label lengths. Find adjacent delimiters.
      */
-    for (cp = start; cp < end && (ch = *(unsigned char *) cp) != 0; cp++) {
+    for (cp = start; cp < end && (ch = *(unsigned char *) cp) != 0; cp++)
+    EAV_VERIF_LOOP(is_ascii_domain)
+    {
+        EAV_VERIF_STEP(is_ascii_domain)
 #ifdef LABELS_ALLOW_UNDERSCORE
         if (ISALNUM(ch) || ch == '_') {     /* grr.. */
 #else
